@@ -12,7 +12,7 @@ echo "== diff stat"; git diff --stat | tail -4
 echo "== suite with change"; /venv/bin/python -m pytest -q -p no:cacheprovider --timeout=900 chempy 2>&1 | tail -1
 echo "== checks against the refactored tree (every line below is an alarm)"
 cd /verif
-for p in C01 C02 C03 C04 C05 C07 C08 C09 C10 C11 C12 C13 C14 C15 C16 C17 C18 C19 C20; do
+for p in C01 C02 C03 C04 C05 C06 C07 C08 C09 C10 C11 C12 C13 C14 C15 C16 C17 C18 C19 C20; do
   out=$(SA_REPO=$WT SA_NO_EVIDENCE=1 /venv/bin/python -m sa $p --tier thorough --no-selftest 2>&1); rc=$?
   if [ $rc -ne 0 ]; then echo "--- $p rc=$rc"; echo "$out" | grep -E "^chempy|ANALYSIS-ERROR" | cut -c1-420 | head -8; fi
 done
